@@ -85,3 +85,10 @@ pub fn panics(v: &[u8], o: Option<u8>, r: Result<u8, ()>) -> u8 {
 	}
 	a + b[0] + c + d + e[0] + (a / c)
 }
+
+/// R04.5 positive control: an allocation sized by a size hint.
+pub fn hint_sized(it: impl Iterator<Item = u8>) -> Vec<u8> {
+	let mut v = Vec::with_capacity(it.size_hint().0);
+	v.extend(it);
+	v
+}
